@@ -194,6 +194,11 @@ class _Normaliser:
                     out = out[:i] + r4 + out[i + 1:]
                     self.changed += 1
                     continue
+            if isinstance(s, ast.Try):
+                r5 = self._n5(s)
+                if r5 is not None:
+                    out[i] = r5
+                    self.changed += 1
             if isinstance(s, ast.For):
                 self._resolve_len_bound(out, i)
                 r2 = self._n2(s)
@@ -293,6 +298,34 @@ class _Normaliser:
                 if isinstance(y.ctx, ast.Load):
                     return True
         return False
+
+    # ------------------------------------------------------------------ N5
+    @staticmethod
+    def _n5(s: ast.Try) -> Optional[ast.stmt]:
+        """`try: return getattr(o, n)` / `x = getattr(o, n)` with `except AttributeError: return D` / `x = D` (D a constant or a
+        name) -> `getattr(o, n, D)`: the three-argument form catches exactly the same AttributeError."""
+        if s.orelse or s.finalbody or len(s.body) != 1 or len(s.handlers) != 1:
+            return None
+        h = s.handlers[0]
+        if not (isinstance(h.type, ast.Name) and h.type.id == 'AttributeError' and h.name is None and len(h.body) == 1):
+            return None
+        b, hb = s.body[0], h.body[0]
+
+        def ga(v):
+            return isinstance(v, ast.Call) and isinstance(v.func, ast.Name) and v.func.id == 'getattr' and len(v.args) == 2 and not v.keywords \
+                and all(_access_path(a) is not None or isinstance(a, (ast.Constant, ast.Subscript)) for a in v.args) \
+                and not any(isinstance(y, ast.Call) for a in v.args for y in ast.walk(a))
+
+        def const(v):
+            return isinstance(v, (ast.Constant, ast.Name))
+        if isinstance(b, ast.Return) and isinstance(hb, ast.Return) and ga(b.value) and hb.value is not None and const(hb.value):
+            call = ast.Call(func=b.value.func, args=list(b.value.args) + [hb.value], keywords=[])
+            return ast.fix_missing_locations(ast.copy_location(ast.Return(value=ast.copy_location(call, b.value)), s))
+        if isinstance(b, ast.Assign) and isinstance(hb, ast.Assign) and ga(b.value) and const(hb.value) and len(b.targets) == 1 and \
+                len(hb.targets) == 1 and isinstance(b.targets[0], ast.Name) and ast.dump(b.targets[0]) == ast.dump(hb.targets[0]):
+            call = ast.Call(func=b.value.func, args=list(b.value.args) + [hb.value], keywords=[])
+            return ast.fix_missing_locations(ast.copy_location(ast.Assign(targets=b.targets, value=ast.copy_location(call, b.value), type_comment=None), s))
+        return None
 
     # ------------------------------------------------------------------ N4
     @staticmethod
